@@ -34,9 +34,13 @@ STUBS += ["`reader` shapes: MDAnalysis.Universe(path) -> model of file-based rea
           "against real MDAnalysis on real files over the operation sequences the package uses; element masses -> fixed positive weights"]
 
 def bounds(tier):
+    extra = {"universe_api": "2 + 3 atoms, 3 frames (thorough 2 + 4, 5 frames); history with a caller editing the derived universes",
+             "dimensions_keyword": "1-2 + 1-2 atoms, 2 frames, symbolic cell edge",
+             "reader": "OneMoleculeReader on modelled XYZ files (1 or 2 frames) and GRO files, 2 grid rows, (1,2) and (2,3) atoms (thorough: up to 3 + 3), "
+                       "symbolic coordinates, fixed positive weights"}
     if tier == "quick":
-        return {"atoms_molecule1": [1, 2], "atoms_molecule2": [1, 2, 3, 4], "frames": [1, 2, 3, 4]}
-    return {"atoms_molecule1": [1, 2, 3], "atoms_molecule2": [1, 2, 3, 4, 5, 6], "frames": [1, 2, 3, 4, 5, 6]}
+        return dict({"atoms_molecule1": [1, 2], "atoms_molecule2": [1, 2, 3, 4], "frames": [1, 2, 3, 4]}, **extra)
+    return dict({"atoms_molecule1": [1, 2, 3], "atoms_molecule2": [1, 2, 3, 4, 5, 6], "frames": [1, 2, 3, 4, 5, 6]}, **extra)
 
 
 def shapes(tier, seed):
